@@ -29,20 +29,21 @@ import (
 
 // E2Params configures a whole-system machine.
 type E2Params struct {
-	Clients  int      `json:"clients"`  // SDK clients available
-	Keys     []string `json:"keys"`     // datatype keys
-	Type     string   `json:"type"`     // datatype type of every key
-	Modes    []string `json:"modes"`    // entry modes offered: create | subscribe | soc
-	Alpha    string   `json:"alpha"`
-	Oracles  []string `json:"oracles"`
-	SyncType string   `json:"sync_type"` // manual (default) | realtime
-	Colls    []string `json:"colls"`     // collections (default ["col"]); client i lives in Colls[i % len]
-	Prefix   string   `json:"prefix"`    // scripted start state: "joined" = every client opened every key (subscribe-or-create) and synced
-	Exchange string   `json:"exchange"`  // "" = SDK Sync(); "pack" = harness-driven pack exchanges with transport faults (C07)
-	Faults   []string `json:"faults"`    // transport faults offered: drop | dup | late
-	MaxFault int      `json:"max_faults"`
-	Resend   bool     `json:"resend"`    // offer re-sending a client's previous request verbatim (C06)
-	Types    []string `json:"types"`     // per-client datatype type (client i uses Types[i % len]); default: Type for all
+	Clients    int      `json:"clients"` // SDK clients available
+	Keys       []string `json:"keys"`    // datatype keys
+	Type       string   `json:"type"`    // datatype type of every key
+	Modes      []string `json:"modes"`   // entry modes offered: create | subscribe | soc
+	Alpha      string   `json:"alpha"`
+	Oracles    []string `json:"oracles"`
+	SyncType   string   `json:"sync_type"` // manual (default) | realtime
+	Colls      []string `json:"colls"`     // collections (default ["col"]); client i lives in Colls[i % len]
+	Prefix     string   `json:"prefix"`    // scripted start state: "joined" = every client opened every key (subscribe-or-create) and synced
+	Exchange   string   `json:"exchange"`  // "" = SDK Sync(); "pack" = harness-driven pack exchanges with transport faults (C07)
+	Faults     []string `json:"faults"`    // transport faults offered: drop | dup | late
+	MaxFault   int      `json:"max_faults"`
+	Resend     bool     `json:"resend"`      // offer re-sending a client's previous request verbatim (C06)
+	Types      []string `json:"types"`       // per-client datatype type (client i uses Types[i % len]); default: Type for all
+	SyncFaults []string `json:"sync_faults"` // transport faults offered on SDK Sync(): drop | dup (bounded by max_faults)
 }
 
 type e2dt struct {
@@ -221,9 +222,8 @@ func (m *e2Machine) Enabled() []pt.Action {
 				}
 				continue
 			}
-			if d.rep.dt.GetState() != model.StateOfDatatype_SUBSCRIBED && d.mode == "subscribe" {
-				continue // a subscriber has nothing sensible to do before its first sync
-			}
+			// (a subscriber may work on its provisional datatype before its first sync: the API allows it and
+			// the protocol discards that work when the subscription completes)
 			w.reps = []*Replica{d.rep}
 			for _, a := range localCalls(w, 0, m.p.Alpha) {
 				a.R = c.idx
@@ -237,6 +237,11 @@ func (m *e2Machine) Enabled() []pt.Action {
 		}
 		if len(c.dts) > 0 && m.p.Exchange == "" {
 			as = append(as, pt.Action{Op: "sync", R: c.idx})
+			if m.nfault < m.p.MaxFault {
+				for _, f := range m.p.SyncFaults {
+					as = append(as, pt.Action{Op: "sync", R: c.idx, K: f})
+				}
+			}
 			if m.p.Resend && c.h.Stub.LastReq != nil {
 				as = append(as, pt.Action{Op: "resend", R: c.idx})
 			}
@@ -392,12 +397,21 @@ func (m *e2Machine) Apply(a pt.Action) (v *pt.Violation) {
 				v = m.checkEntries(c, preds, dumpBefore)
 			}
 		}()
+		switch a.K {
+		case "drop":
+			c.h.Stub.Fault = sysx.RPCDropResponse
+			m.nfault++
+		case "dup":
+			c.h.Stub.Fault = sysx.RPCDupRequest
+			c.h.Stub.Between = func() { synctest.Wait(); time.Sleep(time.Millisecond) }
+			m.nfault++
+		}
 		if !callWithDeadline(func() { err = c.h.C.Sync() }) {
 			exitWith(viol("C16:request-never-answered:sync", "client %d: Sync() did not return within 60 virtual seconds with every goroutine blocked", c.idx))
 		}
 		m.drain()
 		m.last = fmt.Sprintf("sync err=%v", err != nil)
-		if err != nil {
+		if err != nil && a.K != "drop" {
 			return viol("E2:sync-error", "client %d Sync() returned %v", a.R, err)
 		}
 	default:
